@@ -1,4 +1,7 @@
+#[cfg(not(feature = "verif-hooks"))]
 use std::collections::{hash_map, HashMap, HashSet};
+#[cfg(feature = "verif-hooks")]
+use crate::verif::{hash_map, HashMap, HashSet, VerifNew};
 use std::fmt::Debug;
 use std::hash::Hash;
 
